@@ -1077,13 +1077,23 @@ fn run_pairs_t<T: Sc>(count: usize, rng: &mut StdRng, rep: &mut Report) {
             let mut b = base.clone();
             b.par = true;
             b.threads = [1, 2, 3, 4, 8, 16][i % 6];
-            if let (Some(fa), Some(fb)) = (fit_facts(&a, false), fit_facts(&b, false)) {
+            // (single right hand sides through fit_with_statistics: the statistics of a parallel problem
+            // are those of the sequential one)
+            if let (Some(fa), Some(fb)) = (fit_facts(&a, true), fit_facts(&b, true)) {
                 let d = rel_close(&fa.params, &fb.params, t8);
                 let dc = match (&fa.coeffs, &fb.coeffs) {
                     (Some(x), Some(y)) => rel_close(x.as_slice(), y.as_slice(), t8),
                     (None, None) => 0.0,
                     _ => f64::INFINITY,
                 };
+                let ds = match (&fa.chi2_cov, &fb.chi2_cov) {
+                    (Some((c1, v1)), Some((c2, v2))) => rel_close(&[*c1], &[*c2], t8).max(rel_close(v1.as_slice(), v2.as_slice(), t7)),
+                    (None, None) => 0.0,
+                    _ => f64::INFINITY,
+                };
+                rep.check("C11", ds <= 1.0, ds, || {
+                    json!({"what": "fit_with_statistics: statistics of the parallel problem differ from the sequential one", "label": base.label, "threads": b.threads, "dstats": ds})
+                });
                 rep.check("C11", fa.ok == fb.ok && fa.term == fb.term && d <= 1.0 && dc <= 1.0, d.max(dc) * t8, || {
                     json!({"what": "whole fit: parallel problem ends differently from the sequential one", "label": base.label, "threads": b.threads,
                            "seq": [fa.ok, fa.term, fa.nfev], "par": [fb.ok, fb.term, fb.nfev], "dparams": d * t8})
